@@ -73,14 +73,6 @@ func (g *schemaGenerator) generateRootType() error {
 }
 
 func (g *schemaGenerator) generateReferencedType(t *schemas.Type) (codegen.Type, error) {
-	if schemaOutput, ok := g.outputs[g.schema.ID]; ok {
-		if decl, ok := schemaOutput.declsByName[t.Ref]; ok {
-			if decl != nil {
-				return decl.Type, nil
-			}
-		}
-	}
-
 	if t.Ref == "#" {
 		root := (*schemas.Type)(g.schema.ObjectAsType)
 		if decl, ok := g.output.declsBySchema[root]; ok && decl != nil {
